@@ -146,7 +146,7 @@ func genFileSet(h *vh.H, adv bool) *descriptorpb.FileDescriptorSet {
 			g.declEnum(fi, nil)
 		}
 	}
-	if adv && g.chance(1, 6) && len(g.msgs) > 0 {
+	if adv && g.chance(1, 20) && len(g.msgs) > 0 {
 		// name collision through '_': top-level Foo_Bar vs nested Foo.Bar
 		for _, m := range g.msgs {
 			if len(m.nested) > 0 {
@@ -160,7 +160,7 @@ func genFileSet(h *vh.H, adv bool) *descriptorpb.FileDescriptorSet {
 			}
 		}
 	}
-	if adv && g.chance(1, 8) {
+	if adv && g.chance(1, 25) {
 		// name collision between a top-level message Foo_E and a nested enum Foo.E
 		for _, e := range g.enums {
 			if e.parent != nil && !strings.Contains(strings.TrimPrefix(e.parent.full, g.files[e.file].GetPackage()+"."), ".") {
@@ -218,7 +218,7 @@ func (g *gen) declEnum(fi int, parent *gMsg) *gEnum {
 	prefix := strings.ToUpper(name) + "_"
 	dp := &descriptorpb.EnumDescriptorProto{Name: proto.String(name)}
 	first := prefix + "UNSPECIFIED"
-	if g.adv && g.chance(1, 5) {
+	if g.adv && g.chance(1, 12) {
 		first = g.pick([]string{prefix + "UNKNOWN", "UNSPECIFIED", prefix + "UNSPECIFIED_X", "ZERO"})
 	}
 	nv := 1 + g.h.Rng.IntN(4)
@@ -488,7 +488,7 @@ func (g *gen) fillMsg(m *gMsg) {
 }
 
 func (g *gen) pickScalar() K {
-	if g.adv {
+	if g.adv && g.chance(1, 10) {
 		return allScalars[g.h.Rng.IntN(len(allScalars))]
 	}
 	return supportedScalars[g.h.Rng.IntN(len(supportedScalars))]
@@ -598,7 +598,7 @@ func (g *gen) enumField(from *gMsg, name string, num int32) *descriptorpb.FieldD
 
 func (g *gen) wktField(from *gMsg, name string, num int32) *descriptorpb.FieldDescriptorProto {
 	w := supportedWKT[g.h.Rng.IntN(len(supportedWKT))]
-	if g.adv && g.chance(1, 3) {
+	if g.adv && g.chance(1, 8) {
 		w = oddWKT[g.h.Rng.IntN(len(oddWKT))]
 	}
 	g.addImport(from.file, w.file)
@@ -695,7 +695,7 @@ func (g *gen) mapField(from *gMsg, name string, num int32) *descriptorpb.FieldDe
 	val.Options = nil
 	val.JsonName = proto.String("value")
 	keyKind := kString
-	if g.adv && g.chance(1, 5) {
+	if g.adv && g.chance(1, 12) {
 		keyKind = []K{kInt32, kInt64, kBool, kUint32}[g.h.Rng.IntN(4)]
 	}
 	entryName := protocJSONName("_"+name) + "Entry"
@@ -840,13 +840,13 @@ func (g *gen) annotate(f *descriptorpb.FieldDescriptorProto, t annTarget) {
 	}
 	if g.adv {
 		// inconsistent: a rule family of another kind / any type case
-		if g.chance(1, 5) {
+		if g.chance(1, 12) {
 			v = g.validateFor(g.randomTarget(), true)
 		}
-		if g.chance(1, 6) {
+		if g.chance(1, 14) {
 			l = g.listFor(g.randomTarget(), true)
 		}
-		if g.chance(1, 6) {
+		if g.chance(1, 14) {
 			j = g.j5For(g.randomTarget(), true)
 		}
 		if t.kind != kString && g.chance(1, 15) {
@@ -898,7 +898,7 @@ func (g *gen) validateFor(t annTarget, wild bool) *validate.FieldConstraints {
 	fc := &validate.FieldConstraints{}
 	// in valid mode avoid the rule shapes the reader rejects (const/in/not_in on numbers); the
 	// adversarial mode includes them.
-	odd := g.adv && g.chance(1, 4)
+	odd := g.adv && g.chance(1, 8)
 	switch t.kind {
 	case kString:
 		sr := &validate.StringRules{}
